@@ -89,3 +89,26 @@ Proof.
   - destruct (n =? 1) eqn:E1; cbn [trun fold_left tstep]; unfold pn; try rewrite E;
       unfold same_but_cursor; cbn; repeat split; auto; lia.
 Qed.
+
+(* erasing never touches rows above the cursor row *)
+Lemma boh_other_row : forall g y x y' x', y' <> y -> boh g y x y' x' = g y' x'.
+Proof.
+  intros g y x y' x' N. unfold boh, upd.
+  assert (E : (y' =? y) = false) by (destruct (y' =? y) eqn:E; [apply Z.eqb_eq in E; lia|reflexivity]).
+  destruct (tk (g y x) =? 1); [rewrite E; reflexivity|].
+  destruct (tk (g y x) =? 2); [rewrite E; reflexivity|reflexivity].
+Qed.
+
+Lemma erase_line_other_row : forall t y x, y <> cy t -> erase_line t y x = tgrid t y x.
+Proof.
+  intros t y x N. unfold erase_line.
+  assert (E : (y =? cy t) = false) by (destruct (y =? cy t) eqn:E; [apply Z.eqb_eq in E; lia|reflexivity]).
+  rewrite E. cbn [andb].
+  destruct (tk (tgrid t (cy t) (cx t)) =? 2); [apply boh_other_row; exact N|reflexivity].
+Qed.
+
+Lemma erase_down_above : forall t y x, y < cy t -> erase_down t y x = tgrid t y x.
+Proof.
+  intros t y x H. unfold erase_down.
+  destruct (cy t <? y) eqn:E; [lia|]. apply erase_line_other_row. lia.
+Qed.
